@@ -480,7 +480,7 @@ func (e *env) oneFault(caseID string, dir string, hist gen.History, baseline sna
 }
 
 func body(r *ev.Run) {
-	r.Rule("per history (constructed reorganisations of depth 1..D by equal-work overtaking, heavy sibling, light-then-heavy; branch switches, extensions, orphans, duplicates): the uninterrupted run counts W write calls at the repository interface (AddHeaderToDatabase/UpdateState, each one SQL transaction); then W x {kill-before, kill-after, error-instead, error-then-carry-on (ingestion goes on in the same process; judged by the structural invariant only)} runs, one fault each, plus refused COMMITs of the first / middle / last header INSERT (deferred foreign key raised by a trigger), plus SQL-level faults (a trigger makes the statement writing the k-th ROW of the headers table abort - every row of multi-row relabel statements, a sample of the single-row ones), followed by restart (database.Init on the same file), invariant checks, and two full redeliveries compared row-for-row with the uninterrupted run. Plus reorganisations over 520 and 2010 (thorough: 1030 and 2010) heights with faults at the last submission's write boundaries and at rows 1, 500, 501, last of both relabelling statements. A seeded sample is repeated with a real SIGKILL of a child process. evaluations = fault runs; distinct = distinct structural cells (fault kind x operation and ordinal inside its submission x writes of that submission x first/middle/last submission x history length class x real-or-in-process kill); non-trivial = all (each has a fault).")
+	r.Rule("per history (constructed reorganisations of depth 1..D by equal-work overtaking, heavy sibling, light-then-heavy; branch switches, extensions, orphans, duplicates): the uninterrupted run counts W write calls at the repository interface (AddHeaderToDatabase/UpdateState, each one SQL transaction); then W x {kill-before, kill-after, error-instead, error-then-carry-on (ingestion goes on in the same process; judged by the structural invariant only)} runs, one fault each, plus refused COMMITs of the first / middle / last header INSERT (deferred foreign key raised by a trigger), plus SQL-level faults (a trigger makes the statement writing the k-th ROW of the headers table abort - every row of multi-row relabel statements, a sample of the single-row ones), followed by restart (database.Init on the same file), invariant checks, and two full redeliveries compared row-for-row with the uninterrupted run. Plus a first start killed between the creation of the schema and the genesis insert (the next start completes it). Plus reorganisations over 520 and 2010 (thorough: 1030 and 2010) heights with faults at the last submission's write boundaries and at rows 1, 500, 501, last of both relabelling statements. A seeded sample is repeated with a real SIGKILL of a child process. evaluations = fault runs; distinct = distinct structural cells (fault kind x operation and ordinal inside its submission x writes of that submission x first/middle/last submission x history length class x real-or-in-process kill); non-trivial = all (each has a fault).")
 	r.Assume("a write boundary is a call of repository.Headers.AddHeaderToDatabase/UpdateState (each is one committed SQL transaction)", "after an injected write error ingestion stops and the service is restarted (weakest reading)", "SQLite only")
 	r.Require("faults_inside_reorg", 10)
 	r.Require("fault_runs_sql-abort", 50)
@@ -494,6 +494,49 @@ func body(r *ev.Run) {
 	realSample := r.Pick(6, 12) // every n-th fault run is repeated with a real SIGKILL
 	// a reorganisation over more than 500 heights: faults at the write boundaries of the last submission and at rows
 	// inside its two relabelling statements (first, around the 500th, last)
+	// the very first start is killed after the schema was created and before the genesis header was written: the next
+	// start completes the job (there is a genesis header and a tip), and ingestion works from there
+	r.Do("first-start/killed-before-genesis", func() {
+		caseID := "first-start/killed-before-genesis"
+		dir := filepath.Join(r.Scratch, "c05")
+		_ = os.MkdirAll(dir, 0o755)
+		st, err := rig.New(rig.Options{Dir: dir, Name: "first.db", NoHTTP: true})
+		if err != nil {
+			r.Violate("harness|rig", err.Error(), caseID, nil)
+			return
+		}
+		defer st.Destroy()
+		// = the state a kill between the migrations and the genesis insert leaves behind: the schema, no header
+		if _, err := st.DB.Exec(`DELETE FROM headers`); err != nil {
+			r.Violate("harness|sql", err.Error(), caseID, nil)
+			return
+		}
+		if err := st.Restart(); err != nil {
+			r.Violate("restart-failed|first-start|killed-before-genesis", "database.Init failed on a database that has the schema but no genesis header yet: "+err.Error(), caseID, nil)
+			return
+		}
+		t, err := snap.TakeHeaders(st.DB)
+		if err != nil {
+			r.Violate("harness|snapshot", err.Error(), caseID, nil)
+			return
+		}
+		if len(t) != 1 || st.Svc.Headers.GetTip() == nil {
+			r.Violate("no-genesis-after-restart|first-start|killed-before-genesis", fmt.Sprintf("after the restart the store holds %d headers and GetTip returns %v; expected the genesis header", len(t), st.Svc.Headers.GetTip()), caseID, nil)
+			return
+		}
+		rng := r.Rand(caseID)
+		hist := ReorgHistory(rng, 3)
+		m := mb.NewModel()
+		for _, h := range hist.Hdrs {
+			si := mb.Step(st, m, h)
+			if si.Res.Panic != nil || si.Res.Code() != mb.WantCode(si.Outcome) {
+				r.Violate("stuck|first-start|killed-before-genesis", fmt.Sprintf("after completing an interrupted first start a submission answered %q, expected %q", si.Res.Code(), mb.WantCode(si.Outcome)), caseID, map[string]any{"history_hex": hist.Hex()})
+				return
+			}
+		}
+		r.Count("interrupted_first_starts", 1)
+		r.Case("", false)
+	})
 	type deepCfg struct {
 		depth int
 		full  bool // all fault points (else: the last write boundary only)
